@@ -92,6 +92,8 @@ def pool():
     static("s-circle-edge", circ, 9.0, 1.0, 0.0)             # centre outside lanelet 1 (x>8), disc of radius 1.5 reaches it; r/2 does not
     static("s-hex", hexa, 6.0, 2.5, 0.0)
     static("s-hex-rot", hexa, 11.0, 4.0, math.pi / 2)
+    # non-convex outline around the start of lanelet 4: the centroid lies on the lanelet, the polygon does not touch it (orientation 0: pure translation)
+    static("s-C-around-lanelet-4", ["poly", [[-4.0, -2.25], [1.0, -2.25], [1.0, -1.25], [-3.0, -1.25], [-3.0, 1.25], [1.0, 1.25], [1.0, 2.25], [-4.0, 2.25]]], 12.0, 0.25, 0.0)
     dyn("d-rect-traj", rect, [(2.0, 1.0, 0.0), (5.0, 1.5, 0.2), (8.0, 2.5, 0.4)])
     dyn("d-rect-traj-late", rect, [(1.0, 3.0, 0.0), (4.0, 3.0, 0.0), (9.5, 3.0, 0.0), (13.0, 3.0, 0.0)], t0=2)
     dyn("d-small-traj", small, [(4.0, 5.0, 0.0), (7.0, 6.5, 0.5)])
